@@ -43,7 +43,7 @@ Val(x) == IF x = Nil THEN None ELSE x
 ViewOf(d, b) == [i \in Ids |-> IF d[i] = None THEN b[i] ELSE Val(d[i])]
 View == ViewOf(deltas, base)
 
-NoRet == [op |-> "init", id |-> 0, val |-> 0, ok |-> TRUE, err |-> "", n |-> 0, m |-> 0, sz |-> 0]
+NoRet == [op |-> "init", id |-> 0, val |-> 0, ok |-> TRUE, err |-> "", n |-> 0, m |-> 0, sz |-> 0, it |-> 0, cnt |-> 0]
 R(op, id, val) == [NoRet EXCEPT !.op = op, !.id = id, !.val = val]
 
 Init == /\ base = [i \in Ids |-> None] /\ cache = [i \in Ids |-> None] /\ deltas = [i \in Ids |-> None]
@@ -135,9 +135,17 @@ OwnedDeltasCount  == Cardinality({i \in Owned : deltas[i] # None})
 OwnedDeltasSize   == SumSizes({i \in Owned : deltas[i] # None /\ deltas[i] # Nil})
 HasUnsaved(o)     == \E i \in Ids : Owner[i] = o /\ deltas[i] # None
 
+\* SlabIterator: every slab in the write set, then every cached slab not shadowed by the write set (nil entries - pending or
+\* committed deletions - are skipped; slabs here carry no references, so nothing more is reached).  Reported as a bit mask.
+RECURSIVE Mask(_)
+Mask(S) == IF S = {} THEN 0 ELSE LET x == CHOOSE y \in S : TRUE IN 2 ^ (x - 1) + Mask(S \ {x})
+IterSet == {i \in Ids : deltas[i] \notin {None, Nil}} \cup {i \in Ids : deltas[i] = None /\ cache[i] \notin {None, Nil}}
+\* Count(): the number of committed registers (pending changes are not counted)
+RegCount == Cardinality({i \in Ids : base[i] # None})
 Observe ==
   /\ Idle
-  /\ ret' = [R("observe", 0, 0) EXCEPT !.n = DeltasCount, !.m = OwnedDeltasCount, !.sz = OwnedDeltasSize]
+  /\ ret' = [R("observe", 0, 0) EXCEPT !.n = DeltasCount, !.m = OwnedDeltasCount, !.sz = OwnedDeltasSize,
+                                       !.it = Mask(IterSet), !.cnt = RegCount]
   /\ UNCHANGED <<base, cache, deltas>> /\ Forget
 ObserveOwner(o) ==
   /\ Idle
